@@ -21,6 +21,7 @@ type Case struct {
 	SolveFirst bool    `json:"solve_first,omitempty"` // a plain Solve before the first round
 	Rounds     [][]int `json:"rounds"`                // assumption list of each round
 	NbMax      int     `json:"nbmax,omitempty"`
+	CP         bool    `json:"cp,omitempty"` // the cutting-planes strategy is switched on for the whole history
 }
 
 func check(c Case, o *vf.Obs) error {
@@ -33,6 +34,8 @@ func check(c Case, o *vf.Obs) error {
 	o.ClassIf(pb.Status != solver.Indet, "base-parse-decided")
 	base := oracle.CNFPred(c.Clauses)
 	s := solver.New(pb)
+	s.CuttingPlanes = c.CP
+	o.ClassIf(c.CP, "cutting-planes")
 	if c.SolveFirst {
 		st := s.Solve()
 		if truth := oracle.CNFSat(c.N, c.Clauses); truth != (st == solver.Sat) {
@@ -178,6 +181,7 @@ func genSmall(t *rapid.T) Case {
 		c.N, c.Clauses = gen.SmallCNF(t, gen.CNFOpts{MinN: 1, MaxN: 10, MaxRatio: 3, MaxLen: 4, AllowDup: true, AllowUnit: true, UnusedVarSlack: true})
 	}
 	c.SolveFirst = gen.Chance(t, 1, 4, "solveFirst")
+	c.CP = gen.Chance(t, 1, 4, "cuttingPlanes")
 	genRounds(t, &c)
 	return c
 }
@@ -206,6 +210,7 @@ func genHard(t *rapid.T) Case {
 		}
 	}
 	c.SolveFirst = gen.Chance(t, 1, 4, "solveFirst")
+	c.CP = gen.Chance(t, 1, 4, "cuttingPlanes")
 	genRounds(t, &c)
 	return c
 }
